@@ -181,6 +181,33 @@ def oracle(case):
                 f"{'model prediction' if nanidx[i] else 'y'} {pred[i]!r} "
                 f"(order {p}, phi {phi.tolist()})")
 
+    # the same coefficient and innovation objects edited in place, then used
+    # again (a result remembered from the first call would be stale)
+    if n >= 1 and isinstance(params, np.ndarray):
+        e_obj = e.copy()
+        y_first = armodels.armodel_sim(params, e_obj, **kw)
+        params[0] = params[0] + 0.125
+        e_obj[0] = (0.0 if np.isnan(e_obj[0]) else e_obj[0]) + 1.0
+        y_again = armodels.armodel_sim(params, e_obj, **kw)
+        y_ref2 = ref_sim(params, e_obj, m, ini)
+        c2 = min(cut, n)
+        tol_b = 1e-9 * np.maximum.accumulate(np.abs(y_ref2) + abs(m) + 1) \
+            + 1e-12 * propagated(np.maximum.accumulate(
+                np.abs(y_ref2) + abs(m) + 1), max(1.0, float(
+                    np.abs(params).sum())))
+        ok = np.abs(y_ref2) < 1e12
+        if not np.all(np.abs(y_again - y_ref2)[ok] <= tol_b[ok]):
+            raise Violation("armodel_sim called again after its coefficient "
+                            "and innovation arrays were edited in place does "
+                            "not follow the new values")
+        r_again = armodels.armodel_residual(params, y_again.copy(), **kw)
+        e0b = np.where(np.isnan(e_obj), 0.0, e_obj)
+        if not np.all(np.abs(r_again - e0b)[ok] <= tol_b[ok]):
+            raise Violation("armodel_residual after in-place edits is not "
+                            "the inverse of armodel_sim")
+        params[0] = params[0] - 0.125
+        labels.append("second-call-after-in-place-edit")
+
     # rejection
     bad = case["bad"]
     x = np.array([0.1, -0.2, 0.3])
